@@ -173,7 +173,15 @@ class instruction_mips32(cpu.instruction):
             raise ValueError('symbol not resolved %s' % self.l)
         if not isinstance(e, ExprInt):
             return
-        off = (int(e) - self.offset) & int(e.mask)
+        if self.name in ["J", "JAL"]:
+            # The destination is absolute inside the 256MB region of the
+            # instruction (see dstflow2label)
+            region = 0xFFFFFFFF ^ ((1 << 28) - 1)
+            if (int(e) & region) != (self.offset & region):
+                raise ValueError('destination out of region: %r' % int(e))
+            off = int(e) & ((1 << 28) - 1)
+        else:
+            off = (int(e) - self.offset) & int(e.mask)
         if int(off % 4):
             raise ValueError('strange offset! %r' % off)
         self.args[ndx] = ExprInt(off, 32)
